@@ -116,9 +116,10 @@ Proof. unfold src_rotate_log, rotate_log. consts. src_unfold_ops.
   rewrite src_term_id_eq. src_norm.
   rewrite Z.eqb_refl.
   (* the test on the term id of the tail just read, whichever way round it is written *)
-  repeat (try reflexivity;
-          match goal with |- context [Z.eqb ?a ?b] => destruct (Z.eqb_spec a b); cbn [negb] end);
-  try reflexivity; exfalso; congruence. Qed.
+  match goal with |- context [negb (?a =? ?b)] =>
+    destruct (Z.eqb_spec a b) as [e|e];
+    [ try rewrite (proj2 (Z.eqb_eq b a) (eq_sym e)) | try rewrite (proj2 (Z.eqb_neq b a) (not_eq_sym e)) ]
+  end; cbn [negb bind]; reflexivity. Qed.
 
 Theorem src_model_agree m :
   (forall init active, src_index_by_term m init active = Ok (index_by_term init active)) /\
